@@ -541,7 +541,10 @@ def parse_line(line: str) -> Optional[instructions.Instruction]:
 
     f: Callable[[str], Instruction]
     for key, f in parser_rules:
-        if line.startswith(key):
+        # the opcode must be a complete token: `dup3` is not `dup`.
+        if line.startswith(key) and (
+            key[-1] == " " or len(line) == len(key) or line[len(key)] == " "
+        ):
             ins = f(line[len(key) :].strip())
             ins.comment = comment
             ins.source_code = source_code_line
